@@ -1,7 +1,7 @@
 import StraxModel.Driver.Parse
 import StraxModel.Model.SelectionMulti
-namespace Strax.Driver
-open Strax Strax.Selection
+namespace Strax.Driver.C10
+open Strax Strax.Selection Strax.Driver
 
 /-- chunk of a stored layout: `start~stop~rows` (rows `t:e:id,…` or `-`) -/
 def c10Chunk (name kind : String) (s : String) : Option RawChunk :=
@@ -89,6 +89,11 @@ def showPlan : Plan → String
   | .computeNoSave => "nosave"
 
 def c10B (b : Bool) : String := if b then "1" else "0"
+
+end Strax.Driver.C10
+
+namespace Strax.Driver
+open Strax Strax.Selection Strax.Driver.C10
 
 /-- ops of theory T10 (time-range / row / column selection of stored data). -/
 def handleC10 : List String → Option String
